@@ -196,7 +196,7 @@ def rule_flag_as_membership(text, dropped):
 
     def rep(kind):
         nonlocal text, n
-        pat = re.compile(r'\b([A-Za-z_][A-Za-z0-9_]*)\.is_in_' + kind + r'\(\)')
+        pat = re.compile(r'\b([A-Za-z_][A-Za-z0-9_]*)(?:\.as_ref\(\))?\.is_in_' + kind + r'\(\)')
         fld = 'eviction' if kind == 'eviction' else 'indexer'
 
         def f(m):
@@ -401,7 +401,7 @@ def apply_rules(text, rules, dropped):
             if not m:
                 raise SliceError(f'bad sub rule {r}')
             rx, rep = m.group(1), m.group(2)
-            new, n = re.subn(rx, rep, text)
+            new, n = re.subn(rx, lambda _m: rep, text)
             if n == 0:
                 raise SliceError(f'rule {r} did not apply')
             if new.count('\n') != text.count('\n'):
@@ -637,7 +637,7 @@ def generate(unit_dir, vacuity=False, mutate=None):
                     rx = arg
                     if len(rx) >= 2 and rx[0] == '/' and rx[-1] == '/':
                         rx = rx[1:-1]
-                    mm = re.search(rx, text)
+                    mm = re.search(rx, text, re.M)
                     if not mm:
                         raise SliceError(f'{nm}: anchor /{rx}/ not found')
                     if kind == 'before':
